@@ -113,59 +113,54 @@ theorem setSlice?_eq (buf : List Nat) (pos : Nat) (us : List Nat) (h : pos + 13 
     setSlice? buf pos us = some (setSlice buf pos us) := by
   simp [setSlice?, h]
 
-/-! ### stripTrailing -/
+/-! ### cutAtNul -/
 
-theorem stripTrailing_pads (p : List Nat) (h : ∀ x ∈ p, isPad x = true) : stripTrailing p = [] := by
-  induction p with
+theorem cutAtNul_of_nonzero (l : List Nat) (h : ∀ x ∈ l, x ≠ 0) : cutAtNul l = l := by
+  induction l with
   | nil => rfl
   | cons x xs ih =>
     have hx := h x (by simp)
-    have := ih (fun y hy => h y (by simp [hy]))
-    simp [stripTrailing, this, hx]
+    simp [cutAtNul, hx, ih (fun y hy => h y (by simp [hy]))]
 
-theorem stripTrailing_append_pads (l p : List Nat) (h : ∀ x ∈ p, isPad x = true) :
-    stripTrailing (l ++ p) = stripTrailing l := by
+/-- a name without NUL units followed by its terminator and anything -/
+theorem cutAtNul_append_nul (l p : List Nat) (h : ∀ x ∈ l, x ≠ 0) : cutAtNul (l ++ 0 :: p) = l := by
   induction l with
-  | nil => simp [stripTrailing_pads p h, stripTrailing]
-  | cons x xs ih => simp [stripTrailing, ih]
-
-theorem stripTrailing_of_last_good (l : List Nat) (hne : l ≠ [])
-    (hlast : isPad (l.getLast hne) = false) : stripTrailing l = l := by
-  induction l with
-  | nil => exact absurd rfl hne
+  | nil => simp [cutAtNul]
   | cons x xs ih =>
-    by_cases hxs : xs = []
-    · subst hxs
-      simp at hlast
-      simp [stripTrailing, hlast]
-    · have hl : (x :: xs).getLast hne = xs.getLast hxs := List.getLast_cons hxs
-      rw [hl] at hlast
-      have := ih hxs hlast
-      simp [stripTrailing, this, hxs]
+    have hx := h x (by simp)
+    simp [cutAtNul, hx, ih (fun y hy => h y (by simp [hy]))]
 
-theorem stripTrailing_length_le (l : List Nat) : (stripTrailing l).length ≤ l.length := by
+theorem cutAtNul_nonzero (l : List Nat) : ∀ x ∈ cutAtNul l, x ≠ 0 := by
   induction l with
-  | nil => simp [stripTrailing]
+  | nil => simp [cutAtNul]
   | cons x xs ih =>
-    simp only [stripTrailing]
+    simp only [cutAtNul]
+    split
+    · simp
+    · rename_i hx
+      intro y hy
+      rcases List.mem_cons.1 hy with rfl | hy
+      · exact hx
+      · exact ih y hy
+
+theorem cutAtNul_length_le (l : List Nat) : (cutAtNul l).length ≤ l.length := by
+  induction l with
+  | nil => simp [cutAtNul]
+  | cons x xs ih =>
+    simp only [cutAtNul]
     split <;> simp <;> omega
 
-theorem take_stripLen (l : List Nat) : l.take (stripLen l) = stripTrailing l := by
-  unfold stripLen
+theorem take_cutLen (l : List Nat) : l.take (cutLen l) = cutAtNul l := by
+  unfold cutLen
   induction l with
-  | nil => simp [stripTrailing]
+  | nil => simp [cutAtNul]
   | cons x xs ih =>
-    simp only [stripTrailing]
+    simp only [cutAtNul]
     split
     · simp
     · simp [ih]
 
-theorem stripLen_le (l : List Nat) : stripLen l ≤ l.length := stripTrailing_length_le l
-
-theorem replicate_zero_isPad (n : Nat) : ∀ x ∈ List.replicate n 0, isPad x = true := by
-  intro x hx
-  rw [List.mem_replicate] at hx
-  simp [hx.2, isPad]
+theorem cutLen_le (l : List Nat) : cutLen l ≤ l.length := cutAtNul_length_le l
 
 end Lfn
 end FatVerif
